@@ -62,8 +62,23 @@ unsafe fn put_num(fd: libc::c_int, mut v: usize) {
     put(fd, &buf[i..]);
 }
 
+/// 0 = nobody is reporting yet, otherwise the pthread id of the reporting thread
+static REPORTER: AtomicUsize = AtomicUsize::new(0);
+
 extern "C" fn handler(sig: libc::c_int) {
     unsafe {
+        // Memory corruption usually takes several workers down at almost the same time: only the
+        // first one writes the report (two writers garble the file), the others wait for its
+        // `_exit`. A second fault on the reporting thread itself ends the process at once.
+        let me = libc::pthread_self() as usize;
+        if let Err(owner) = REPORTER.compare_exchange(0, me, Ordering::SeqCst, Ordering::SeqCst) {
+            if owner == me {
+                libc::_exit(3);
+            }
+            loop {
+                libc::pause();
+            }
+        }
         let path = PATH.load(Ordering::Acquire);
         let slot = SLOT.try_with(|s| s.get()).unwrap_or(usize::MAX);
         if !path.is_null() {
